@@ -242,7 +242,7 @@ Qed.
 (* the pinned tree prepended the padding: a one-octet word with forwardable (bit 1) set reads as bit 25 *)
 Example pad4_front_moves_flags :
   let f := mkBits [64] 8 in
-  is_flag_set f 1 = Ok true /\ is_flag_set (pad4_front f) 1 = Ok false /\ is_flag_set (pad4_front f) 25 = Ok true /  is_flag_set (kdc_options_widen f) 1 = Ok true /\ is_flag_set (kdc_options_widen f) 25 = Ok false.
+  is_flag_set f 1 = Ok true /\ is_flag_set (pad4_front f) 1 = Ok false /\ is_flag_set (pad4_front f) 25 = Ok true /\ is_flag_set (kdc_options_widen f) 1 = Ok true /\ is_flag_set (kdc_options_widen f) 25 = Ok false.
 Proof. repeat split. Qed.
 
 (* ------------------------------------------------------------------ SetFlag / UnsetFlag *)
